@@ -46,7 +46,6 @@ __CPROVER_assigns();
 
 #define C49_FUNCS
 #include "slices.h"
-
 void h_presalted_u256(void) { const PresaltedSipHasher* h; const uint256_c* v; g_k0 = nondet_u64(); g_k1 = nondet_u64(); uint64_t r = PresaltedSipHasher_call(h, v); VERIF_REACH_PT("hashed"); }
 void h_presalted_extra(void) { const PresaltedSipHasher* h; const uint256_c* v; uint32_t e; g_k0 = nondet_u64(); g_k1 = nondet_u64(); uint64_t r = PresaltedSipHasher_call_extra(h, v, e); VERIF_REACH_PT("hashed"); }
 /* CSipHasher(k0,k1) as the constructor builds it: keyed state, no pending bytes */
